@@ -55,7 +55,12 @@ THEOREMS = [
     "Jinns.Boundary.grid_mean_times_cross",
     "Jinns.Boundary.boundarySpinn_eq_sum_facets",
     "Jinns.Boundary.facetLossSpinn_eq_facetLoss_2d",
+    "Jinns.Boundary.value_eq_expected",
+    "Jinns.Boundary.holdsC04_model",
+    "Jinns.Boundary.holdsC04_model_spinn_statio",
+    "Jinns.Boundary.holdsC04_model_spinn_nonstatio",
 ]
+LEAN_MODULES = ["JinnsProofs.C04", "JinnsProofs.C04C14Holds"]
 RULE = ("cases = (stationary / non-stationary, dimension 1 or 2, network with 1..3 outputs, specification global or "
         "per-facet dictionary with None facets, condition / component selection / f / return shape per facet, border "
         "batch hand-built or from the real generator, 1..4 time points); non-trivial = the term is non-zero or a facet "
